@@ -53,7 +53,7 @@ Definition ms_entries (s : memstorage) (lo hi maxSize : N) : res (list entry * e
   | [] => Ok ([], ErrUnavailable)
   | _ =>
       (* ms.ents[lo-offset : hi-offset], position 0 being the dummy *)
-      let sl := ntake (sub64 hi lo) (ndrop (lo - offset - 1) (ms_ents s)) in
+      let sl := ntake (hi - lo) (ndrop (lo - offset - 1) (ms_ents s)) in
       Ok (limit_size sl maxSize, ENone)
   end.
 
